@@ -9,6 +9,9 @@ PID = "C10"
 MODEL = {"vars": [{"lb": 0, "ub": 10}, {"lb": 0, "ub": 10}],
          "cons": [{"lb": 1, "ub": None, "lin": [[0, 1], [1, 1]]}],
          "objs": [{"max": False, "lin": [[0, 1], [1, 1]]}]}
+# two objectives, solved with obj:multi=1 by a backend with native multi-objective support:
+# the message then has the "Individual objective values" form
+MODEL2 = dict(MODEL, objs=MODEL["objs"] + [{"max": True, "lin": [[0, 2], [1, -1]]}])
 
 
 def run(tier):
@@ -37,7 +40,17 @@ def run(tier):
             if o: ans += "objvals 42.5\n"
             cases.append({"id": len(cases), "model": MODEL, "answer": ans,
                           "opts": ["alg:iisfind=1", "alg:rays=3"],
-                          "abs": {"code": c, "hasPrimal": bool(p), "hasDual": bool(d), "hasObj": bool(o)}})
+                          "abs": {"code": c, "hasPrimal": bool(p), "hasDual": bool(d), "hasObj": bool(o), "multi": False}})
+        # the same code with two objectives in multi-objective mode
+        mshapes = [(1, 1, 1)] if tier != "thorough" and c not in edge else [(1, 1, 1), (1, 0, 0), (0, 0, 1), (0, 1, 0)]
+        for (p, d, o) in mshapes:
+            ans = "status %d scripted status %d\n" % (c, c)
+            if p: ans += "primal 1 2\n"
+            if d: ans += "dual 3 5\n"
+            if o: ans += "objvals 42.5 17.25\n"
+            cases.append({"id": len(cases), "model": MODEL2, "answer": ans,
+                          "opts": ["alg:iisfind=1", "alg:rays=3", "obj:multi=1"],
+                          "abs": {"code": c, "hasPrimal": bool(p), "hasDual": bool(d), "hasObj": bool(o), "multi": True}})
     results = drv.run_cases(exe, PID, cases)
     d = outdir(PID)
     trace = os.path.join(d, "trace-%s.ndjson" % tier)
@@ -61,7 +74,7 @@ def run(tier):
                     f.write(json.dumps(ev) + "\n")
             s = r["sol"]
             if s:
-                shown = re.search(r"; (feasrelax )?objective 42\.5", s["msg"]) is not None
+                shown = re.search(r"; (feasrelax )?objective 42\.5|_sobj\[\d+\] = (42\.5|17\.25)", s["msg"]) is not None
                 f.write(json.dumps({"e": "Sol", "present": True, "code": s["code"] if s["code"] is not None else -99999,
                                     "objno": s["objno"] if s["objno"] is not None else -99999, "objShown": shown,
                                     "nprimal": s["nprimal"], "ndual": s["ndual"], "nvars": s["nvars"], "ncons": s["ncons"]}) + "\n")
@@ -87,12 +100,12 @@ def run(tier):
         "traces_validated_against_impl": len(cases),
         "samples": [cases[0]["abs"], cases[len(cases) // 2]["abs"], open(trace).read().splitlines()[2:8]],
         "evaluations": len(cases), "codes": len(codes), "exhaustive": True,
-        "explanation": "every status code -200..999 run through a real driver (scripted backend), answer shapes primal/dual/objective present or absent; each run validated by TLC as a behaviour of SolveCodes.tla; -! table compared with the documented ranges",
+        "explanation": "every status code -200..999 run through a real driver (scripted backend), answer shapes primal/dual/objective present or absent, single objective and two objectives under obj:multi=1 (native multi-objective backend); each run validated by TLC as a behaviour of SolveCodes.tla; -! table compared with the documented ranges",
         "design_check": {"module": "MCSolveCodes", "distinct_states": mc.distinct},
         "rejected": len(printed_json(res, "BAD")), "violations_new": nnew,
     }, time.time() - t0, violations=nnew,
         assumptions=["the scripted backend reports the status through StdBackend::SetStatus like a real solver driver",
-                     "objective display detected by the text '; objective 42.5' in the solve message"])
+                     "objective display detected by the text '; objective 42.5' or '_sobj[i] = 42.5 / 17.25' in the solve message (a backend that supplies no objective values gets zeros from the value postsolver; those are not the backend's objective)"])
     return rcode
 
 if __name__ == "__main__":
